@@ -1,9 +1,13 @@
 package c01
 
 import (
+	"bytes"
+	"math"
 	"strings"
+	"sync"
 
 	"seehuhn.de/go/sfnt"
+	"seehuhn.de/go/sfnt/post"
 )
 
 // findings.go: the recorded genuine defects that are still open
@@ -23,7 +27,103 @@ const (
 	sigEpoch1904 = "timestamp-1904-epoch-reads-back-unset"
 
 	epoch1904 = -2082844800
+
+	// glyf.Outlines.Names with more than 65278 names outside the standard
+	// Macintosh set: post.Encode computes the format-2 name index 258+k in an
+	// int and stores its low 16 bits, so the names from k = 65278 on come back
+	// as standard Macintosh names.
+	sigPostNames = "post-format2-more-than-65278-custom-names:name-index-wraps"
+
+	// An OpenType/CFF file without a post table whose CFF top DICT carries a
+	// fractional UnderlinePosition/UnderlineThickness: Read keeps the fraction,
+	// Write rounds it into the post table it creates, the next Read takes the
+	// post value.
+	sigCFFUnderline = "cff-without-post-table:fractional-underline-rounds-on-second-read"
+	maxCustomNames = 65536 - 258
 )
+
+var (
+	macOnce  sync.Once
+	macNames map[string]bool
+)
+
+// standardMacNames: the 258 names of a format-1 post table, obtained by
+// reading such a table.
+func standardMacNames() map[string]bool {
+	macOnce.Do(func() {
+		macNames = map[string]bool{}
+		b := make([]byte, 32)
+		b[1] = 1 // version 1.0
+		if info, err := post.Read(bytes.NewReader(b)); err == nil {
+			for _, n := range info.Names {
+				macNames[n] = true
+			}
+		}
+	})
+	return macNames
+}
+
+func customNameCount(names []string) int {
+	std := standardMacNames()
+	k := 0
+	for _, n := range names {
+		if !std[n] {
+			k++
+		}
+	}
+	return k
+}
+
+// recordedFindings explains the difference between the first-read font f0 and
+// the re-read font f1 (fields = the top-level fields that differ) by recorded
+// findings; nil when some differing field is not explained.
+func recordedFindings(f0, f1 *sfnt.Font, fields []string) []string {
+	var bold, under []string
+	for _, n := range fields {
+		switch n {
+		case "IsBold", "IsRegular":
+			bold = append(bold, n)
+		case "UnderlinePosition", "UnderlineThickness":
+			under = append(under, n)
+		default:
+			return nil
+		}
+	}
+	var sigs []string
+	if len(bold) > 0 {
+		if !weightBoldFinding(f0, f1, bold) {
+			return nil
+		}
+		sigs = append(sigs, sigWeightBold)
+	}
+	if len(under) > 0 {
+		if !cffUnderlineFinding(f0, f1) {
+			return nil
+		}
+		sigs = append(sigs, sigCFFUnderline)
+	}
+	return sigs
+}
+
+// cffUnderlineFinding: a CFF font whose underline metrics are fractional (they
+// can only have come from the CFF table of a file without a post table) and
+// whose re-read values are exactly the rounded ones.
+func cffUnderlineFinding(f0, f1 *sfnt.Font) bool {
+	if !f0.IsCFF() {
+		return false
+	}
+	frac := false
+	for _, p := range [][2]float64{{float64(f0.UnderlinePosition), float64(f1.UnderlinePosition)},
+		{float64(f0.UnderlineThickness), float64(f1.UnderlineThickness)}} {
+		if p[0] != math.Trunc(p[0]) {
+			frac = true
+		}
+		if p[1] != math.Round(p[0]) {
+			return false
+		}
+	}
+	return frac
+}
 
 // weightBoldFinding recognises the recorded input class from the first-read
 // font f0 and the re-read font f1: only IsBold (and IsRegular, which Read
@@ -46,7 +146,7 @@ func weightBoldFinding(f0, f1 *sfnt.Font, fields []string) bool {
 // finding it is an instance of, or "" when it is not a recorded finding.
 func knownSignature(f *failure) string {
 	switch f.sig {
-	case sigWeightBold, sigEpoch1904:
+	case sigWeightBold, sigEpoch1904, sigPostNames, sigCFFUnderline:
 		return f.sig
 	}
 	return ""
